@@ -36,6 +36,12 @@ pub struct Inst {
 /// -(k) for k in 2..=63 = Duration::from_secs(1 << k), "effectively infinite" for any trace.
 pub const SPEC_TICK_CAP: u64 = 10_000_000;
 
+/// Sets the mock clock of this thread (no-op in builds without the hook).
+pub fn set_clock(_ms: u64) {
+    #[cfg(all(helgoboss_midi_verif, feature = "std"))]
+    verif_hooks::set_now(_ms);
+}
+
 pub fn duration_of(to: i64) -> Duration {
     if to == -1 {
         Duration::MAX
